@@ -347,6 +347,13 @@ func RunCheck(opt CheckOptions) int {
 			}
 			continue
 		}
+		if confirmed && strings.Contains(j.viol.ID, "/inv-") {
+			// A representation invariant of an inductive (STEP) harness is not the
+			// property: if only the invariant breaks, the harness no longer fits the
+			// implementation and says nothing (the BMC twin decides the property).
+			inconclusive = append(inconclusive, fmt.Sprintf("%s: representation invariant %s is no longer preserved by the code (replay %s); the inductive harness does not apply to this implementation", j.spec.Name, j.viol.ID, j.path))
+			continue
+		}
 		if confirmed {
 			nViol++
 			exit = 1
@@ -413,7 +420,7 @@ func RunCheck(opt CheckOptions) int {
 		harnessSumm = append(harnessSumm, map[string]interface{}{
 			"harness": spec.Name, "bounds": spec.Doc, "paths_completed": res.Paths, "paths_cut_by_assume": res.AssumeCut,
 			"paths_ending_in_panic": res.PanicPaths, "forks": res.Forks, "solver_queries": res.Queries,
-			"sat": res.Sat, "unsat": res.Unsat, "unknown": res.Unknown, "solver_s": round3(res.SolverTime.Seconds()),
+			"sat": res.Sat, "unsat": res.Unsat, "z3_timeouts_retried_on_cvc5": res.Fallbacks, "decided_unsat_by_cvc5": res.FallbackUnsat, "solver_s": round3(res.SolverTime.Seconds()),
 			"wall_s": round3(res.Wall.Seconds()), "ssa_instructions": res.Steps, "sched": spec.Sched,
 			"stubs": spec.Stubs,
 		})
@@ -447,7 +454,7 @@ func RunCheck(opt CheckOptions) int {
 		"functions_encoded":             sortedBoolKeys(funcs),
 		"queries":                       queries,
 		"solver_s":                      round3(solverS),
-		"solver":                        "z3 4.8.12 (-in, incremental push/pop)",
+		"solver":                        "z3 4.8.12 (-in, incremental push/pop); queries on which z3 times out are re-decided by cvc5 1.0 --solve-bv-as-int=sum on the same SMT-LIB context",
 		"covers_reached":                covers,
 		"assertions_checked":            asserts,
 		"inconclusive":                  inconclusive,
